@@ -694,3 +694,16 @@ def atomics_family(seed, quick):
     fence = Func([I32], [I32], [], [('atomic.fence',), ('local.get', 0)])
     out.append(('atomic_fence', Module(funcs=[fence], mems=mems, exports=[('f', 'func', 0)]), [{'call': 'f'}], {}))
     return out
+
+
+# ====================================================================== C17 wait/notify emission
+def futex_family():
+    out = []
+    mems = [(1, 1, True)]
+    for off in (0, 8, 12):
+        n = Func([I32, I32], [I32], [], [('local.get', 0), ('local.get', 1), ('memory.atomic.notify', 2, off)])
+        w32 = Func([I32, I32, I64], [I32], [], [('local.get', 0), ('local.get', 1), ('local.get', 2), ('memory.atomic.wait32', 2, off)])
+        w64 = Func([I32, I64, I64], [I32], [], [('local.get', 0), ('local.get', 1), ('local.get', 2), ('memory.atomic.wait64', 3, off if off != 12 else 16)])
+        m = Module(funcs=[n, w32, w64], mems=mems, exports=[('n', 'func', 0), ('w32', 'func', 1), ('w64', 'func', 2)])
+        out.append(('futex_emit_o%d' % off, m, [{'call': 'n'}, {'call': 'w32'}, {'call': 'w64'}], {'futex_stub': True}))
+    return out
